@@ -128,6 +128,23 @@ CURATED = [
     "def p(a: Qfixed[2, 3]) -> Qint[2]:\n\treturn int(a)",
     "def p(a: Qfixed[1, 2]) -> Qint[2]:\n\treturn int(a)",
     "def p(a: Qint[2]) -> Qfixed[2, 2]:\n\treturn float(a)",
+    # constant folding (ConstantFolder): comparisons / unary / binary operators / builtins / subscripts / conditions on constants
+    "def p(a: Qint[2]) -> Qint[4]:\n\treturn a + 3 if 2 <= 2 else a",
+    "def p(a: Qint[2]) -> Qint[4]:\n\treturn a + 1 if 3 < 3 else a + 2",
+    "def p(a: Qint[2]) -> Qint[4]:\n\treturn a + 1 if 3 >= 4 else a + 2",
+    "def p(a: Qint[2]) -> Qint[4]:\n\treturn a + 1 if 4 > 3 else a + 2",
+    "def p(a: Qint[2]) -> Qint[4]:\n\treturn a + 1 if 3 != 3 else a + 2",
+    "def p(a: bool) -> bool:\n\treturn a and (3 == 3) and not (2 == 3)",
+    "def p(a: bool) -> bool:\n\tif 1 < 2:\n\t\ta = not a\n\treturn a",
+    "def p(a: bool) -> bool:\n\tif 2 < 1:\n\t\ta = not a\n\telse:\n\t\ta = a\n\treturn a",
+    "def p(a: Qint[4]) -> Qint[4]:\n\treturn a + (7 - 4) + (2 * 3) - (9 % 4) + (1 << 2) - (8 >> 2)",
+    "def p(a: Qint[4]) -> Qint[4]:\n\treturn a + (6 & 3) + (4 | 1) + (7 ^ 2)",
+    "def p(a: Qint[4]) -> Qint[4]:\n\treturn a + 2 ** 3",
+    "def p(a: Qint[4]) -> Qint[4]:\n\treturn a + max([1, 5, 3]) - min([4, 2, 9]) + len([7, 7, 7]) + sum([1, 2])",
+    "def p(a: Qint[4]) -> Qint[4]:\n\treturn a + [3, 9, 4][1]",
+    "def p(a: bool) -> bool:\n\treturn a or all([True, False]) or not any([False, False])",
+    "def p(a: Qint[8]) -> bool:\n\treturn a == ord('A')",
+    "def p(a: Qchar) -> bool:\n\treturn a == chr(66)",
     # early return forms from the README
     "def p(a: Qint[2], b: Qint[2]) -> bool:\n\treturn a + b == 3",
     "def p(a: Qlist[Qint[2], 2], b: Qint[2]) -> bool:\n\tc = False\n\tfor x in a:\n\t\tif x == b:\n\t\t\tc = True\n\treturn c",
@@ -409,29 +426,34 @@ def pysem_tables(src, qf, max_bits=12):
     arg_types = [a.ttype for a in qf.args]
     nret = len(qf.returns.bitvec)
     ret = [0] * nret
+    carebit = [0] * nret       # per return bit: the rows on which the reference constrains it
     care = 0
-    rej = und = ovf = 0
+    rej = und = ovf = partial = 0
     why = None
     for r in range(1 << n):
         row = [(r >> i) & 1 == 1 for i in range(n)]
         out = pysem.evaluate(fn, arg_types, qf.returns.ttype, row)
         if out[0] == "value":
-            bits, overflow = out[1], out[2]
+            bits, overflow, cm = out[1], out[2], out[4]
             if len(bits) != nret:
                 return dict(shape_mismatch=f"reference yields {len(bits)} bits, library declares {nret}")
             if overflow:
                 ovf += 1
-                continue
+                if not any(cm):
+                    continue
+                partial += 1      # wrap-around row: only the low bits that modular arithmetic determines are compared
             care |= 1 << r
             for k, b in enumerate(bits):
-                if b:
-                    ret[k] |= 1 << r
+                if cm[k]:
+                    carebit[k] |= 1 << r
+                    if b:
+                        ret[k] |= 1 << r
         elif out[0] == "reject":
             rej += 1
             why = why or out[1]
         else:
             und += 1
-    return dict(ret=ret, care=care, rejects=rej, undefined=und, overflow=ovf, rows=1 << n, why=why)
+    return dict(ret=ret, care=care, carebit=carebit, rejects=rej, undefined=und, overflow=ovf, modular_rows=partial, rows=1 << n, why=why)
 
 
 def row_bits(r, n):
